@@ -4,6 +4,7 @@
 mod alu;
 mod ast;
 mod checks;
+mod checks2;
 mod exec;
 mod forms;
 mod gen;
@@ -30,7 +31,8 @@ fn main() {
             let seed: u64 = arg(&args, "--seed", "1").parse().unwrap_or(1);
             let out = arg(&args, "--out", "/verif/work/tmp");
             let shards: usize = arg(&args, "--shards", "16").parse().unwrap_or(16);
-            checks::generate(&prop, &tier, seed, &out, shards);
+            let hist = arg(&args, "--histories", "");
+            checks::generate(&prop, &tier, seed, &out, shards, if hist.is_empty() { None } else { Some(hist.as_str()) });
         }
         other => {
             eprintln!("unknown subcommand {}", other);
